@@ -22,7 +22,7 @@ structure Full where
   ws : Option WState := none
   clock : Int := 0
 
-def worldOps : List String := ["world", "clock", "advance", "init", "tick", "mutate", "mode", "state"]
+def worldOps : List String := ["world", "clock", "advance", "init", "tick", "mutate", "mode", "state", "backend_log"]
 
 /-- a client query touches the selected peers (`lastQuery`, spin-up from idle) before it is answered -/
 def touchPeers (f : Full) (j : Json) : Full :=
@@ -46,6 +46,87 @@ def touchPeers (f : Full) (j : Json) : Full :=
             else { e with p := { e.p with lastQuery := ws.now } }
           let ws' := { ws with peers := ws.peers.map touch }
           { f with ws := some ws', st := { f.st with ds := ws'.dataset f.st.ds } }
+
+/-! ## command sessions (`Lmd.Commands`) -/
+
+/-- the requests of a session text, as `NewRequest` cuts them: a first line, header lines up to an empty line -/
+partial def splitChunks : List String → List (List String)
+  | [] => []
+  | [last] => if trimSpace last == "" then [] else [[last]]
+  | first :: rest =>
+    if trimSpace first == "" then [] :: splitChunks rest
+    else
+      let hdrs := rest.takeWhile (fun l => trimSpace l != "")
+      (first :: hdrs) :: splitChunks ((rest.dropWhile (fun l => trimSpace l != "")).drop 1)
+
+def classifyChunk (schema : Schema) (idx : Nat) (chunk : List String) : Option CReq :=
+  match chunk with
+  | [] => some .blank
+  | first :: hdrs =>
+    let first := trimSpace first
+    if first.startsWith "GET " then
+      match parseRequest schema { optimize := true, q := Quirks.current } ("\n".intercalate (first :: hdrs)) with
+      | .ok req => some (.get idx req.keepAlive)
+      | .error (.bad _) => some (.bad idx)
+      | .error (.unsupported _) => none
+    else if first.startsWith "COMMAND " then
+      if isCommandLine first then
+        match parseCommandHeaders { optimize := true, q := Quirks.current } {} hdrs with
+        | .ok req => some (.cmd first req.backends req.keepAlive)
+        | .error _ => some (.bad idx)
+      else some (.bad idx)
+    else some (.bad idx)
+
+def outcomeJson (peer : String) : CmdOutcome → Json
+  | .sent => Json.mkObj [("peer", .str peer), ("outcome", .str "sent")]
+  | .rejected c m => Json.mkObj [("peer", .str peer), ("outcome", .str "rejected"), ("code", .num ⟨c, 0⟩), ("msg", .str m)]
+  | .lastError => Json.mkObj [("peer", .str peer), ("outcome", .str "last_error")]
+  | .retriesExceeded => Json.mkObj [("peer", .str peer), ("outcome", .str "retries_exceeded")]
+  | .stillWaiting => Json.mkObj [("peer", .str peer), ("outcome", .str "waiting")]
+
+def parseEnv (j : Json) (peer : String) : List EnvStep :=
+  (jStrs (jObj j "env") peer).filterMap fun s =>
+    if s == "tick" then some .tick
+    else if s.startsWith "tick+mode:" then some (.tickMode (s.drop 10).toString)
+    else if s.startsWith "mode:" then some (.mode (s.drop 5).toString)
+    else none
+
+def runEvents (j : Json) (chunks : List (List String)) : List Event → Full → List Json → Full × List Json
+  | [], f, out => (f, out)
+  | ev :: rest, f, out =>
+    match ev, f.ws with
+    | .flush q, some ws =>
+      let (ws, results) := q.foldl (fun (acc : WState × List Json) (peer, cmds) =>
+        let (ws, results) := acc
+        match ws.peers.find? (·.id == peer) with
+        | none => (ws, results)
+        | some e =>
+          let (p, b, cb, o) := peerSend ws.w ws.now (parseEnv j peer) e.p e.b e.cb cmds
+          (mapPeer ws peer (fun e => { e with p := p, b := b, cb := cb }), results ++ [outcomeJson peer o])) (ws, [])
+      let f := { f with ws := some ws, st := { f.st with ds := ws.dataset f.st.ds } }
+      runEvents j chunks rest f (out ++ [Json.mkObj [("ev", .str "flush"), ("results", .arr results.toArray)]])
+    | .flush _, none => runEvents j chunks rest f out
+    | .answer idx, _ =>
+      let text := "\n".intercalate (chunks.getD idx []) ++ "\n\n"
+      let qj := Json.mkObj [("id", .num ⟨(idx : Int), 0⟩), ("text", .str text), ("optimize", .bool true)]
+      let f := touchPeers f qj
+      let res := handleQuery f.st qj
+      runEvents j chunks rest f (out ++ [Json.mkObj [("ev", .str "answer"), ("idx", .num ⟨(idx : Int), 0⟩), ("text", .str text), ("res", res)]])
+    | .parseError idx, _ => runEvents j chunks rest f (out ++ [Json.mkObj [("ev", .str "parse_error"), ("idx", .num ⟨(idx : Int), 0⟩)]])
+    | .emptyRequest, _ => runEvents j chunks rest f (out ++ [Json.mkObj [("ev", .str "empty_request")]])
+
+def cmdSession (f : Full) (j : Json) : Full × Json :=
+  let id := jNat j "id"
+  let base : List (String × Json) := [("id", .num ⟨(id : Int), 0⟩), ("op", .str "cmdsession")]
+  let chunks := splitChunks ((jStr j "text").splitOn "\n")
+  let classes := (List.range chunks.length).zip chunks |>.map fun (i, c) => classifyChunk f.st.schema i c
+  if classes.any Option.isNone then (f, Json.mkObj (base ++ [("unsupported", .bool true)]))
+  else
+    let reqs := classes.filterMap (fun c => c)
+    let peers := match f.ws with | some ws => ws.peers.map (·.id) | none => []
+    let events := sessionEvents peers (reqs.length + 2) reqs false
+    let (f, out) := runEvents j chunks events f []
+    (f, Json.mkObj (base ++ [("events", .arr out.toArray)]))
 
 partial def loop (h : IO.FS.Stream) (out : IO.FS.Stream) (f : Full) : IO Unit := do
   let line ← h.getLine
@@ -71,6 +152,11 @@ partial def loop (h : IO.FS.Stream) (out : IO.FS.Stream) (f : Full) : IO Unit :=
           out.flush
         | none => pure ()
         loop h out { st := st', ws := ws', clock := clock' }
+      else if op == "cmdsession" then
+        let (f', r) := cmdSession f j
+        out.putStrLn (Json.compress r)
+        out.flush
+        loop h out f'
       else
         let f := if op == "query" then touchPeers f j else f
         let f := if op == "dataset" || op == "sync" then { f with ws := none } else f
